@@ -19,11 +19,11 @@ Definition mu_cnn_static (s : multi_static) (latent : Z) : cnn_static :=
 Definition multi_step (s : multi_static) (c : multi_cfg) (a : multi_arch) (m : multi_meth) (r1 r2 : Z) : step_out multi_arch :=
   match m with
   | MuAddLatent nn =>
-      let n := arg nn (choose latent_choices r1) in
+      let n := arg nn (choose latent_choices r2) in
       ((if mu_latent a + n <? mu_max_latent c then {| mu_latent := mu_latent a + n; mu_cnn := mu_cnn a |} else a),
        "add_latent_node", [n])
   | MuRemoveLatent nn =>
-      let n := arg nn (choose latent_choices r1) in
+      let n := arg nn (choose latent_choices r2) in
       ((if mu_min_latent c <? mu_latent a - n then {| mu_latent := mu_latent a - n; mu_cnn := mu_cnn a |} else a),
        "remove_latent_node", [n])
   | MuCnn cm =>
